@@ -49,10 +49,32 @@ static std::string norm(const char *p) {
   return s;
 }
 static time_t vnow() { return S.base_time + (time_t)(S.vus / 1000000); }
-static void touch(const std::string &p) { mtimes[p] = vnow(); }
-void files_set_mtime(const std::string &p, time_t t) { mtimes[norm(p.c_str())] = t; }
+static void touch(const std::string &p) { mtimes[p] = vnow(); if (S.fs_log) ev("mt %s %ld", pct_enc(p).c_str(), (long)mtimes[p]); }
+void files_set_mtime(const std::string &p, time_t t) { mtimes[norm(p.c_str())] = t; if (S.fs_log) ev("mt %s %ld", pct_enc(norm(p.c_str())).c_str(), (long)t); }
 void files_arm_stop(long n) { mut_calls = 0; stop_at = n; stopped = false; }
 long files_mut_calls() { return mut_calls; }
+// several driver lives over one scratch directory (plan step "restart"): the simulated mtimes survive in a file
+void files_save_state(const std::string &path) {
+  std::string out;
+  for (auto &kv : mtimes) out += std::to_string((long long)kv.second) + " " + kv.first + "\n";
+  int fd = __real_open(path.c_str(), O_WRONLY | O_CREAT | O_TRUNC, 0644);
+  if (fd >= 0) { size_t off = 0; while (off < out.size()) { ssize_t n = __real_write(fd, out.data() + off, out.size() - off); if (n <= 0) break; off += (size_t)n; } __real_close(fd); }
+}
+void files_load_state(const std::string &path) {
+  int fd = __real_open(path.c_str(), O_RDONLY, 0);
+  if (fd < 0) return;
+  std::string in; char buf[4096]; ssize_t n;
+  while ((n = __real_read(fd, buf, sizeof buf)) > 0) in.append(buf, (size_t)n);
+  __real_close(fd);
+  size_t i = 0;
+  while (i < in.size()) {
+    size_t j = in.find('\n', i); if (j == std::string::npos) j = in.size();
+    std::string line = in.substr(i, j - i);
+    size_t sp = line.find(' ');
+    if (sp != std::string::npos) mtimes[line.substr(sp + 1)] = (time_t)atoll(line.substr(0, sp).c_str());
+    i = j + 1;
+  }
+}
 void files_reset() { fdpath.clear(); cookie_fd.clear(); mtimes.clear(); mut_calls = 0; stop_at = -1; stopped = false; read_calls = 0; }
 
 // returns true if this mutating call must fail (the disk has stopped)
@@ -179,7 +201,7 @@ void files_forget_stream(FILE *f) { cookie_fd.erase(f); }
 static void fix_mtime(const std::string &p, struct stat *st) {
   if (!S_ISREG(st->st_mode)) return;
   auto it = mtimes.find(p);
-  time_t t = it == mtimes.end() ? S.base_time - 100000 : it->second;
+  time_t t = it == mtimes.end() ? (time_t)1000000000 - 100000 : it->second;   // files nobody touched are older than the first boot
   st->st_mtime = t; st->st_mtim.tv_nsec = 0; st->st_ctime = t; st->st_atime = t;
 }
 extern "C" int __wrap_stat(const char *path, struct stat *st) {
